@@ -3,11 +3,16 @@
 // CompactFileChunks, MaybeManifestize / VerifMaybeManifestize,
 // VerifMergeIntoManifest, ResolveOneChunkManifest) and records what they
 // return. Chunk bytes and manifest blobs are served by an httptest server
-// through a lookup function, or by a stub chunk cache. No expectations here.
+// through a lookup function, or by a stub chunk cache. ReadAll and the
+// ChunkStreamReader (both constructors, Read, Seek) reach the same server through
+// a MasterClient whose location cache the harness fills / a stub FilerClient
+// answering LookupVolume; TotalSize, FileSize and MinusChunks are called as they
+// are. No expectations here.
 package main
 
 import (
 	"bytes"
+	"context"
 	"fmt"
 	"io"
 	"io/ioutil"
@@ -22,6 +27,7 @@ import (
 	"github.com/chrislusf/seaweedfs/weed/pb/filer_pb"
 	"github.com/chrislusf/seaweedfs/weed/storage/needle"
 	"github.com/chrislusf/seaweedfs/weed/wdclient"
+	"google.golang.org/grpc"
 
 	"verifharness/tr"
 )
@@ -76,11 +82,36 @@ func (c *cache) GetChunkSlice(fileId string, offset, length uint64) []byte {
 }
 func (c *cache) SetChunk(fileId string, data []byte) {}
 
-type lookupHolder struct{ fn wdclient.LookupFileIdFunctionType }
+type lookupHolder struct {
+	fn wdclient.LookupFileIdFunctionType
+}
 
 func (l lookupHolder) GetLookupFileIdFunction() wdclient.LookupFileIdFunctionType { return l.fn }
 
+// stub filer client: LookupVolume answers with the blob server for every volume id
+type stubFilerClient struct{ host string }
+type stubSeaweedFiler struct {
+	filer_pb.SeaweedFilerClient
+	host string
+}
+
+func (s stubSeaweedFiler) LookupVolume(ctx context.Context, in *filer_pb.LookupVolumeRequest, opts ...grpc.CallOption) (*filer_pb.LookupVolumeResponse, error) {
+	r := &filer_pb.LookupVolumeResponse{LocationsMap: map[string]*filer_pb.Locations{}}
+	for _, v := range in.VolumeIds {
+		r.LocationsMap[v] = &filer_pb.Locations{Locations: []*filer_pb.Location{{Url: s.host, PublicUrl: s.host}}}
+	}
+	return r, nil
+}
+func (f stubFilerClient) WithFilerClient(fn func(filer_pb.SeaweedFilerClient) error) error {
+	return fn(stubSeaweedFiler{host: f.host})
+}
+func (f stubFilerClient) AdjustedUrl(l *filer_pb.Location) string { return l.Url }
+
 type exec struct {
+	host   string
+	mc     *wdclient.MasterClient
+	sr     *filer.ChunkStreamReader
+	old    []*filer_pb.FileChunk
 	x      int
 	st     *store
 	lookup wdclient.LookupFileIdFunctionType
@@ -271,6 +302,59 @@ func (ex *exec) step(e tr.Ev) {
 		} else {
 			e["res"] = d
 		}
+	case "readall":
+		b, err := filer.ReadAll(ex.mc, ex.top)
+		got := make([]int, len(b))
+		for i, v := range b {
+			got[i] = int(v)
+		}
+		e["got"], e["err"] = got, errStr(err)
+	case "sopen":
+		if tr.S(e, "via") == "master" {
+			ex.sr = filer.NewChunkStreamReaderFromFiler(ex.mc, ex.top)
+		} else {
+			ex.sr = filer.NewChunkStreamReader(stubFilerClient{ex.host}, ex.top)
+		}
+	case "sseek":
+		if ex.sr == nil {
+			tr.Fatal("sseek without sopen")
+		}
+		res, err := ex.sr.Seek(int64(tr.I(e, "off")), tr.I(e, "whence"))
+		e["res"], e["err"] = clip(res), errStr(err)
+	case "sread":
+		if ex.sr == nil {
+			tr.Fatal("sread without sopen")
+		}
+		n := tr.I(e, "n")
+		buf := bytes.Repeat([]byte{0xAA}, n)
+		nret, err := ex.sr.Read(buf)
+		got := make([]int, 0, n)
+		for i := 0; i < nret && i < n; i++ {
+			got = append(got, int(buf[i]))
+		}
+		e["got"], e["nret"], e["err"] = got, nret, errStr(err)
+	case "tsize":
+		e["res"] = clip(int64(filer.TotalSize(ex.top)))
+	case "fsize":
+		ent := &filer_pb.Entry{Chunks: ex.top, Attributes: &filer_pb.FuseAttributes{FileSize: uint64(tr.I(e, "attr"))}}
+		e["res"] = clip(int64(filer.FileSize(ent)))
+	case "snap":
+		ex.old = append([]*filer_pb.FileChunk(nil), ex.top...)
+	case "minus":
+		a, b := ex.old, ex.top
+		if tr.I(e, "dir") == 1 {
+			a, b = ex.top, ex.old
+		}
+		delta, err := filer.MinusChunks(ex.lookup, a, b)
+		ids := make([]int, 0, len(delta))
+		for _, c := range delta {
+			id, ok := ex.idOf[c.GetFileIdString()]
+			if !ok {
+				id = -1
+			}
+			ids = append(ids, id)
+		}
+		e["res"], e["err"] = ids, errStr(err)
 	default:
 		tr.Fatal("unknown op %v", e["ev"])
 	}
@@ -292,12 +376,15 @@ func main() {
 	}))
 	defer srv.Close()
 	lookup := func(fileId string) ([]string, error) { return []string{srv.URL + "/" + fileId}, nil }
+	host := strings.TrimPrefix(srv.URL, "http://")
+	mc := wdclient.NewMasterClient(grpc.WithInsecure(), "c17", "localhost", 0, "", nil)
 	for x, script := range tr.ReadScript(o.Script) {
 		mode := tr.S(script[0], "mode")
 		if mode == "" {
 			mode = "cache"
 		}
-		ex := &exec{x: x + 1, st: st, lookup: lookup, cc: &cache{st: st, mode: mode}, idOf: map[string]int{}, nextM: 1000}
+		mc.VerifAddLocation(uint32(x+1), wdclient.Location{Url: host, PublicUrl: host})
+		ex := &exec{host: host, mc: mc, x: x + 1, st: st, lookup: lookup, cc: &cache{st: st, mode: mode}, idOf: map[string]int{}, nextM: 1000}
 		ex.addChunks(tr.List(script[0]["list"]), tr.List(script[0]["payload"]), 0)
 		ex.fsize = int64(tr.I(script[0], "fsize"))
 		w.Emit(script[0])
